@@ -129,10 +129,18 @@ MergeOps(toks, i, acc) ==
   ELSE MergeOps(toks, i + 1, Append(acc, toks[i]))
 
 Hy == <<45>>
+\* a `v` prefix cut off from its version by blanks (`v 1.2.3`, `>=v 1.2.3`, `>= v 1.2.3`): two readings, both with
+\* standing.  The crate lists `v 1.2.3 -> 1.2.3` among its loose spellings and reads the blanks as part of the prefix
+\* (`>=v 1.2.3` is `>=1.2.3`); node-semver reads `>=v` as an unparseable token, dropped, and `1.2.3` as an exact
+\* version.  "Blanks after the v prefix" is not among the spellings C01 lists, and the README says nothing: undetermined,
+\* like the repeated `v` / `=` prefixes.  (Without an operator both readings give `1.2.3`.)
+BareV(t) == Drop(t, OpOf(t).n) = <<118>>
+DetachedV(toks) == \E i \in 1..(Len(toks) - 1) : BareV(toks[i])
 \* one alternative: [det, alt]
 ParseAlt(b) ==
   LET toks == Tokens(b, 1, <<>>, <<>>) IN
   IF toks = <<>> THEN [det |-> FALSE, alt |-> <<>>]                       \* empty alternative: not determined
+  ELSE IF DetachedV(toks) THEN [det |-> FALSE, alt |-> <<>>]
   ELSE IF \E i \in 1..Len(toks) : toks[i] = Hy THEN
          \* the hyphen form stands alone: partial ' - ' partial
          (IF Len(toks) = 3 /\ toks[2] = Hy THEN
@@ -153,7 +161,7 @@ ParseAlt(b) ==
             ELSE [det |-> FALSE, alt |-> <<>>]
           ELSE [det |-> FALSE, alt |-> <<>>])
   ELSE LET m == MergeOps(toks, 1, <<>>) IN
-       IF m.chained THEN [det |-> FALSE, alt |-> <<>>]
+       IF m.chained \/ DetachedV(m.toks) THEN [det |-> FALSE, alt |-> <<>>]
        ELSE LET ps == [i \in 1..Len(m.toks) |-> ParseToken(m.toks[i])] IN
             IF \E i \in 1..Len(ps) : ps[i].big THEN [det |-> FALSE, alt |-> <<>>]
             ELSE [det |-> TRUE, alt |-> AltOf([i \in 1..Len(ps) |-> ps[i].c])]
